@@ -8,6 +8,9 @@ BASE_NOTE = "Trusted base: Go 1.26.8 toolchain (testing/synctest for the virtual
 
 # property -> (technique, level text, design ref, extra note)
 CLAIMED = {
+ "C14": ("systematic schedule enumeration under a cooperative scheduler (verif scheduling point) + stress histories, both checked against the sequential specification with porcupine; sequential model-based runs",
+         "Every schedule (at critical-section granularity) of all 2-worker configurations over a 7-operation cache alphabet and of 1.5k (quick) / 40k (thorough) generated 2-3 worker configurations is executed and its history decided by a linearizability checker; 180k (quick) / 6M (thorough) stress trials with real goroutines under the race detector cover what cooperative scheduling cannot (splits inside an operation that has no scheduling point).",
+         "DESIGN.md 3/C14", "The schedule enumeration is complete only relative to the scheduling points that exist; map iteration order is the runtime's."),
  "C18": ("model-based event-sequence search in a synctest bubble against the bare monitors and against datagram/stream connections with a scripted peer answering pings on the wire",
          "Generated {message, pong (current or superseded), tick} sequences with virtual gaps around the period (20k quick / 400k thorough), replayed on a reference model: exact iff-condition for the inactivity monitor, safety (no early close) and bounded liveness for keep-alive.",
          "DESIGN.md 3/C18", ""),
